@@ -2,6 +2,7 @@
    Proofs/SamplesOccur.lean. -/
 import XsdataModel.Proofs.SamplesOccur
 import XsdataModel.Bind.Parse
+import XsdataModel.Proofs.SamplesComponents
 
 namespace Props.C13
 open Py Xs.Samples
@@ -245,5 +246,56 @@ example : ∀ i, Env.ascii.pyInt "12".toList = some i → intStr i = "12".toList
   intro i h
   have : Env.ascii.pyInt "12".toList = some 12 := by decide
   rw [this] at h; cases h; decide
+
+
+/-! ### connected components of the repeat ranges -/
+
+/-- two indices end up in one component -/
+def SameComp (lists : List (List Nat)) (x y : Nat) : Prop :=
+  ∃ c ∈ connectedComponents lists, x ∈ c ∧ y ∈ c
+
+/-- **components_correct.** `connected_components` returns a partition of the indices that occur
+in the input lists (no repeats, pairwise disjoint, every component sorted); each input list lies
+inside one component; and two indices share a component exactly when a chain of input lists,
+consecutive ones overlapping, links them — the components are the maximal overlapping groups. -/
+theorem components_correct (lists : List (List Nat)) :
+    (connectedComponents lists).Nodup ∧
+    (∀ c ∈ connectedComponents lists, ∀ d ∈ connectedComponents lists, ∀ x, x ∈ c → x ∈ d → c = d) ∧
+    (∀ c ∈ connectedComponents lists, c.Pairwise (· ≤ ·)) ∧
+    (∀ l ∈ lists, l ≠ [] → ∃ c ∈ connectedComponents lists, ∀ x ∈ l, x ∈ c) ∧
+    (∀ x y, SameComp lists x y ↔ (∃ l ∈ lists, x ∈ l) ∧ (∃ l ∈ lists, y ∈ l) ∧ Chain lists x y) := by
+  obtain ⟨hcover, hnodup, hdisj, hclosed, hconn, hsorted⟩ := components_spec lists
+  refine ⟨hnodup, hdisj, hsorted, hclosed, ?_⟩
+  intro x y
+  constructor
+  · rintro ⟨c, hc, hx, hy⟩
+    exact ⟨(hcover x).1 ⟨c, hc, hx⟩, (hcover y).1 ⟨c, hc, hy⟩, hconn c hc x hx y hy⟩
+  · rintro ⟨hx, hy, hch⟩
+    obtain ⟨c, hc, hxc⟩ := (hcover x).2 hx
+    refine ⟨c, hc, hxc, ?_⟩
+    clear hx hy
+    induction hch with
+    | refl => exact hxc
+    | step l hl hxl hyl _ ih =>
+      have hne : l ≠ [] := by intro h; subst h; simp at hxl
+      obtain ⟨d, hd, hsub⟩ := hclosed l hl hne
+      have : c = d := hdisj c hc d hd _ hxc (hsub _ hxl)
+      subst this
+      exact ih (hsub _ hyl)
+
+/-- **components_order_independent.** Which indices share a component does not depend on the order
+in which the lists are given. -/
+theorem components_order_independent (l₁ l₂ : List (List Nat)) (h : l₁.Perm l₂) (x y : Nat) :
+    SameComp l₁ x y ↔ SameComp l₂ x y := by
+  have key : ∀ a b : List (List Nat), (∀ l, l ∈ a → l ∈ b) → SameComp a x y → SameComp b x y := by
+    intro a b hsub hs
+    obtain ⟨hx, hy, hc⟩ := ((components_correct a).2.2.2.2 x y).1 hs
+    refine ((components_correct b).2.2.2.2 x y).2 ⟨?_, ?_, hc.mono hsub⟩
+    · obtain ⟨l, hl, hxl⟩ := hx; exact ⟨l, hsub l hl, hxl⟩
+    · obtain ⟨l, hl, hyl⟩ := hy; exact ⟨l, hsub l hl, hyl⟩
+  exact ⟨key l₁ l₂ (fun l hl => h.mem_iff.1 hl), key l₂ l₁ (fun l hl => h.mem_iff.2 hl)⟩
+
+/-- the interleaved sample `a b a b c`: one sequence group made of the first four children -/
+example : sequentialGroups ["a".toList, "b".toList, "a".toList, "b".toList, "c".toList] = [[0, 1, 2, 3]] := by decide
 
 end Props.C13
